@@ -63,8 +63,12 @@ DELIM_NAME = {',': 'comma', '|': 'pipe', '\t': 'tab', ';': 'semicolon'}
 ENCODINGS = ['utf-8', 'latin-1', 'utf-16']
 HEADERS = list(S.HEADER_MODES)
 BOOLFMTS = [None, 'Y|N', '1|0']
-#: one-deviation and history layers: also spellings whose polarity is the
-#: other way round in another table (N is "true" here, "false" there)
+#: history layers (every history starts from the pristine module state, so
+#: these are also loaded alone): spellings whose polarity is the other way
+#: round in another table (N is "true" here, "false" there).  They are kept
+#: out of the table layers, whose cases share a worker process on purpose
+#: without resetting it, so that a verdict never depends on which cases a
+#: worker happened to run before
 BOOLFMTS_WIDE = BOOLFMTS + ['N|Y', 'T|F', 'F|T']
 
 #: csv2pandas keywords, each at ONE non-default value for which the statement
@@ -319,7 +323,7 @@ def one_deviations():
         out.append({'encoding': x})
     for x in HEADERS[1:]:
         out.append({'header': x})
-    for x in BOOLFMTS_WIDE[1:]:
+    for x in BOOLFMTS[1:]:
         out.append({'boolformat': x})
     for x in EOLS[1:]:
         out.append({'eol': x})
@@ -630,8 +634,8 @@ class C16(Check):
             'alias tdda documents) with 0-2 (thorough 0-3) rows and nulls x '
             'delimiter {, | tab ;} x encoding {utf-8, latin-1, utf-16} x '
             'header {present, "header": false, "headerRowCount": 0} x '
-            'boolean format {default, Y|N, 1|0; one deviation and histories: '
-            'also N|Y, T|F, F|T} x line terminator {LF, CRLF} '
+            'boolean format {default, Y|N, 1|0; histories: also N|Y, T|F, '
+            'F|T} x line terminator {LF, CRLF} '
             'x column descriptions {plain, "titles" as string / list / '
             'language map on all or one column with the header row holding '
             'the title, "name" absent, trailing virtual column} x metadata '
@@ -1740,6 +1744,8 @@ class C16(Check):
                 # fails whatever ran before: reported as the table layers do
                 self.pristine.restore()
                 self.report_b(R, dict(st, keep=False), fails)
+        # leave no trace for the cases that follow in this worker
+        self.pristine.restore()
         R.out('h:%s:%s:%s' % (aspect, case['files'],
                               'history-dependent' if history_dependent else
                               '|'.join(o for o in seen[-1][1]['outs'])[:80]))
